@@ -301,11 +301,18 @@ def run(ctx):
                 method = rng.choice(["fit", "avg", "mean"])
                 corr.gamma_method()
                 use_prange = rng.random() < 0.3
+                # the same range object serves two calls: the second result must be the documented average over [a, b] again
+                rlist = [a, b]
                 if use_prange:
-                    corr.set_prange([a, b])
+                    corr.set_prange(rlist)
+                    corr.plateau(method=method)
                     r = corr.plateau(method=method)
                 else:
-                    r = corr.plateau([a, b], method=method)
+                    corr.plateau(rlist, method=method)
+                    r = corr.plateau(rlist, method=method)
+                if rlist != [a, b] or (use_prange and list(corr.prange) != [a, b]):
+                    ctx.fail("plateau:modifies-range", "plateau(method=%s) changed the range it was given from [%d, %d] to %s" % (method, a, b, rlist if rlist != [a, b] else list(corr.prange)),
+                             {"T": T, "pattern": pat, "range": [a, b], "method": method, "via_prange": use_prange})
                 idx = [t for t in range(a, b + 1) if pat[t]]
                 ops = [obs[t] for t in idx]
                 vs = [float(o.value) for o in ops]
